@@ -40,6 +40,13 @@ Ext(t, c)   == Mem("ext",    t, 0, c)   \* T x<@c>;    sized by member c
 LimX(t, n, c) == Mem("limx", t, n, c)   \* n slots, counted by member c (isar / patch "limited";
                                         \* prophy text can only write it with an adjacent u32 counter: T x<n>)
 
+\* bound SHIFT (Python runtime: array(T, bound=.., shift=s)): the counter on the wire
+\* is length + s.  Only arrays that are bound and have no size can be shifted; for
+\* those forms the otherwise unused field n holds the shift.
+DynS(t, s)    == Mem("dyn", t, s, 0)
+ExtS(t, c, s) == Mem("ext", t, s, c)
+ShiftOf(m) == IF m.f \in {"dyn", "ext"} THEN m.n ELSE 0
+
 ArrayForms == {"fixed", "dyn", "lim", "greedy", "ext", "limx"}
 
 (* ---- type definitions ------------------------------------------------- *)
@@ -113,6 +120,11 @@ RulePositiveSize(ms) ==
 RuleByteOnlyInArray(ms) ==
     \A j \in 1..Len(ms) : ms[j].t.k = "byte" => ms[j].f \in ArrayForms
 
+\* "Different bound shifts are unsupported in externally sized arrays"
+RuleSameShift(ms) ==
+    \A a, b \in 1..Len(ms) :
+        (ms[a].f \in {"ext", "limx"} /\ ms[b].f \in {"ext", "limx"} /\ ms[a].c = ms[b].c) => ShiftOf(ms[a]) = ShiftOf(ms[b])
+
 RuleNonEmpty(ms) == ms # <<>>
 
 LegalStruct(env, kinds, ms) ==
@@ -124,6 +136,7 @@ LegalStruct(env, kinds, ms) ==
     /\ RuleSizer(env, ms)
     /\ RulePositiveSize(ms)
     /\ RuleByteOnlyInArray(ms)
+    /\ RuleSameShift(ms)
 
 \* names of the struct rules an (illegal) member list violates
 StructViolations(env, kinds, ms) ==
@@ -135,6 +148,7 @@ StructViolations(env, kinds, ms) ==
     \cup (IF RuleSizer(env, ms) THEN {} ELSE {"sizer-before-array-integer-not-optional"})
     \cup (IF RulePositiveSize(ms) THEN {} ELSE {"positive-array-size"})
     \cup (IF RuleByteOnlyInArray(ms) THEN {} ELSE {"bytes-only-as-array"})
+    \cup (IF RuleSameShift(ms) THEN {} ELSE {"same-shift-per-sizer"})
 
 \* "Union arm may not contain unlimited nor dynamic struct, nor array."
 RuleArmFixed(kinds, arms) ==
